@@ -5,6 +5,8 @@ def sess_nontrivial(tok, res):
     r = res.split("|", 1)[0]
     if tok[0] in ("reset", "randid", "randconc"):
         return tok[0] != "reset"
+    if tok[0] == "name":
+        return False
     return r not in ("disabled", "badop", "timeout", "wedged", "blocked")
 
 
@@ -14,6 +16,8 @@ def sess_class(r):
         return "old"
     if r.startswith("p:"):
         return "p"
+    if r.startswith("req:"):
+        return "req:<session>"
     if r.startswith("err:"):
         return "err"
     if r.startswith("fresh:"):
@@ -25,9 +29,18 @@ def sess_class(r):
     return r[:14]
 
 
+def relog_class(r):
+    if not r.startswith("ids:"):
+        return r[:14]
+    ids = r[4:].split(";")[0].split(",")
+    kept = sum(1 for i in range(1, len(ids)) if ids[i] == ids[i - 1] and ids[i] != "x")
+    return "ids:%d logins,%d presenting the id of the one before" % (len(ids), kept)
+
+
 PROP = {
         "level": "proof",
-        "gens": ["RandFacts"],
+        "gens": ["RandFacts", "KeyFacts"],
+        "extra_targets": ["Frp.Props.C12Res", "Frp.Props.C12Keys"],
         "theorems": [
             "Frp.Sess.ninv_step", "Frp.Sess.rinv_step", "Frp.C12.reachable_inv",
             "Frp.C12.holds_is_named", "Frp.C12.one_live_proxy_per_name", "Frp.C12.named_is_live",
@@ -43,10 +56,25 @@ PROP = {
             "Frp.C12.randid_same_id_same_draw", "Frp.C12.randid_shared_pool_witness",
             "Frp.C12.idsOK_sound", "Frp.C12.burstOK_sound", "Frp.C12.fresh_login_enabled",
             "Frp.C12.ackOn_sound", "Frp.C12.model_ackSpec", "Frp.C12.holdsOn_sound",
+            # the incumbent keeps working: name-keyed resources behind a proxy (Frp/Props/C12Res.lean)
+            "Frp.Sess.vinv_step", "Frp.C12.reachable_vinv", "Frp.C12.entry_holder_open", "Frp.C12.incumbent_owns_entry",
+            "Frp.C12.vis_entry_stable", "Frp.C12.nat_entry_stable", "Frp.C12.reg_run_refused",
+            "Frp.C12.reg_run_refused_iff_occupied", "Frp.C12.reg_run_free", "Frp.C12.refused_reg_frame",
+            "Frp.C12.teardown_releases_all", "Frp.C12.ack_after_entries_released", "Frp.C12.run_fail_close_witness",
+            "Frp.C12.resOn_sound", "Frp.C12.vis_entry_new", "Frp.C12.nat_entry_new", "Frp.C12.model_resSpec",
+            # names as the client sends them; the client half of a re-login (Frp/Props/C12Keys.lean, Frp/Gen/KeyFacts.lean)
+            "Frp.C12.serverName_is_sent_name", "Frp.C12.key_is_sent_name", "Frp.C12.key_facts_shape",
+            "Frp.C12.table_keys_are_the_sent_name", "Frp.C12.client_login_shape", "Frp.C12.src_not_early",
+            "Frp.C12.refused_login_keeps_run_id", "Frp.C12.every_login_presents_last_assigned",
+            "Frp.C12.relogin_presents_last_assigned", "Frp.C12.work_conns_carry_assigned",
+            "Frp.C12.early_assign_forgets_witness", "Frp.C12.presentsOK_sound",
         ],
         "engines": [
             {"name": "sess", "quick_n": 20000, "thorough_n": 60000, "thorough_seeds": 5,
              "nontrivial": sess_nontrivial, "result_class": sess_class},
+            {"name": "relog", "quick_n": 24, "thorough_n": 64, "thorough_seeds": 3,
+             "nontrivial": lambda tok, res: tok[0] == "rlwait" and res.startswith("ids:"),
+             "result_class": relog_class},
         ],
         "rule": "sess engine: a real server.Service in-process, scripted raw clients over net.Pipe on the internal "
                 "listener; every goroutine of RegisterControl / Control.worker / RegisterProxy / CloseProxy is parked "
@@ -63,7 +91,24 @@ PROP = {
                 "32..2000 calls of the real util.RandID with Gosched interleaving (<= 4096 ids: C12.idsOK in the driver, "
                 "larger: malformed/repeated ids reported by the harness). Every wait is event driven and bounded (2 s, halved "
                 "by every expiry down to 125 ms); an expired wait is a DIFF and wedges that world. non-trivial = a label that "
-                "was enabled; distinct = distinct (op line, result+tables) pairs",
+                "was enabled; distinct = distinct (op line, result+tables) pairs. "
+                "Resources behind a name: NewProxy of type tcp / stcp / sudp / xtcp; after every label also the keys of "
+                "visitor.Manager.listeners, nathole.Controller.clientCfgs and of ctl.proxies of every designated session are "
+                "dumped and compared, and C12.resOn is evaluated on them (an entry disappears only by an action of the "
+                "session that holds it, never by a refused registration / foreign close / foreign teardown; every entry is "
+                "held by a live session; own-table keys stand in the name table); name races: 2..4 sessions pass the Exist "
+                "check for ONE name (one rendez-vous table or mixed types) before any of them runs, then Run / Add / insert "
+                "interleave at random; after every refusal the incumbent is probed: vprobe (Service.RegisterVisitorConn "
+                "with the right key: the listener exists and the session that receives ReqWorkConn is the holder), nprobe "
+                "(NatHoleVisitor pre-check through an unrelated session), tprobe (connect to the incumbent's remote port). "
+                "Names travel as the client sends them: per world 4 raw names generated as variants of one base (leading / "
+                "trailing / inner blanks incl. tab, newline, NBSP, U+3000, zero-width; case variants; empty; blank only; "
+                "unicode; 60..3000 bytes; dotted), pairwise different raw strings are different keys. "
+                "relog engine: the REAL client.Service against a scripted raw server: per scenario 3..5 logins answered by "
+                "accept(run id: 16 hex / short / long / with blanks / empty; echoed or replaced on re-login) + cut, "
+                "refuse (LoginResp.Error without and with a run id), dropped connection, garbage; at most two failures in a "
+                "row; the run id of every Login and of the work connection opened for every accepted session are judged by "
+                "C12.presentsOK against the model of the login state (12 scenarios run concurrently)",
         "trusted": COMMON_TRUST + [
             "model Frp/Model/Sess.lean written by hand from server/service.go RegisterControl, server/control.go, "
             "server/proxy/proxy.go Manager, pkg/msg/handler.go; tied by the sess engine",
@@ -74,6 +119,15 @@ PROP = {
             "identifiers of RandID / RandIDWithLen -> Frp/Gen/RandFacts.lean, regenerated on every run; "
             "Model/RandID.lean (hex formatting, calls in flight with private buffers) written by hand from those six statements",
             "randconc with more than 4096 ids: duplicate / format detection is done by the harness (Go map), not by the driver",
+            "translate/gen_keyfacts.go (go/ast): key expression of every pxyManager.Exist/Add/Del call and every ctl.proxies "
+            "index / delete / range in server/control.go; writers of a proxy config's Name (pkg/config/v1/proxy.go), the calls "
+            "of NewProxyConfigurerFromMsg on the configurer, BaseProxy.name initialiser and GetName body; client/service.go "
+            "login(): Login.RunID expression, assignments to svr.runID and their position relative to the LoginResp.Error "
+            "check, SessionContext.RunID, NewWorkConn.RunID -> Frp/Gen/KeyFacts.lean, regenerated on every run; "
+            "Model/ClientLogin.lean (ClientLogin, NameKey) written by hand from those statements",
+            "the rendez-vous tables and ctl.proxies are read through reflect (Service.rc is unexported) with the existing "
+            "read-only hooks VisitorManager.VerifNames / NatHoleController.VerifClients / Service.VerifAuthSessions; the "
+            "holder of an entry is the model's bookkeeping (the dumps carry names only), confirmed behaviourally by the probes",
         ],
         "assumptions": [
             "the id generator is abstract in the session model: a generated run id is one no session has, and no login presents "
@@ -83,21 +137,29 @@ PROP = {
             "collision probability is <= N^2/2^65 (N = 128000: < 5e-10), so pairwise distinctness of the ids observed in a "
             "run is a sound oracle for 'each id is new'",
             "the dispatcher runs handlers sequentially and closes Done only after the last handler returned (pkg/msg/handler.go)",
-            "resources behind a proxy (ports, routes, visitors: C09/C10), the work-connection pool (C11), plugins, "
-            "MaxPortsPerClient and Control.runID=\"\" written by Replaced are outside this model; pxy.Run's outcome is an oracle",
+            "ports and routes behind a proxy (C09/C10), the work-connection pool (C11), plugins, MaxPortsPerClient and "
+            "Control.runID=\"\" written by Replaced are outside this model; pxy.Run's outcome is an oracle for tcp proxies "
+            "(determined by the model for stcp / sudp / xtcp)",
+            "client half: the scripted server stands for frps (it assigns / echoes run ids and refuses logins the way "
+            "server/service.go does); an answer that is a well-formed frame of another message type is outside the domain "
+            "(msg.ReadMsgInto ignores the type byte: frpc would take it for an accepted login without run id)",
             "session identity = Login.Hostname chosen by the harness; pointer equality c == ctl of ControlManager.Del is session-number equality",
         ],
     }
 
 META = {
-        "engine": "lean+harness(sess)",
+        "engine": "lean+harness(sess, relog)",
         "design_ref": "DESIGN.md §6 C12, Appendix A.1",
         "technique": "Lean 4 small-step labelled transition system of the session bookkeeping (16 labels = atomic "
                      "actions between mutex sections / gates); two inductive invariant bundles proved for every label and "
                      "lifted to all label sequences; differential correspondence by gated schedules on the real Service "
                      "with table dumps after every label; run-id generator: go/ast facts about RandIDWithLen + a model of "
                      "concurrent calls with private buffers + concurrent executions of the real generator (direct and "
-                     "through bursts of fresh logins) judged by the executable freshness predicate",
+                     "through bursts of fresh logins) judged by the executable freshness predicate; the two name-keyed "
+                     "rendez-vous tables (visitor listeners, nat hole clients) inside the session model with a third "
+                     "invariant bundle, census + behavioural probes of the incumbent on the real Service; go/ast facts about "
+                     "the key expression of every table operation and about frpc's login(); a model of frpc's run-id state "
+                     "tied by the real client.Service against a scripted server",
         "text": "Proof (model level) + correspondence. For every interleaving of the atomic actions of any number of "
                 "sessions: at most one live proxy per name and its holder is the session stored in the global table; "
                 "a registration meeting an occupied name (at the Exist check or at the Add) is refused and changes "
@@ -118,8 +180,27 @@ META = {
                 "call returns the 16 lower-case hex id of the block it read itself, equal ids imply equal first 8 "
                 "bytes drawn (witness: with a shared pool buffer two overlapping calls return the same id). The "
                 "acknowledgement clause is also evaluated on the implementation's own LoginResps (ackOn; the model "
-                "satisfies it: model_ackSpec).",
-        "note": "Trusted: Lean kernel; hand-written model; harness generators; gates. model_holdsOn (the model's own "
-                "tables satisfy the executable predicate) is not proved separately - the predicate is evaluated on the "
-                "implementation's tables and the tables are also compared with the model's after every label.",
+                "satisfies it: model_ackSpec). The incumbent keeps working: the visitor-listener table (stcp, sudp) and the "
+                "nat hole client table (xtcp) are part of the model - Run creates the entry unless the name has one, Close "
+                "deletes it BY NAME; for every interleaving an entry is held by a live session with an open proxy of that "
+                "name, it stays exactly as it is unless its holder closes that proxy itself, a refused registration "
+                "(Exist check, Run, Add) changes no entry / record / table of anybody else and a failed Run changes no "
+                "table at all (witness: a Run that closes by name on failure removes the incumbent's listener), a session "
+                "that closed its done channel holds no entry, hence a re-login is acknowledged only after every entry of "
+                "its predecessors is gone; the executable clause resOn (sound w.r.t. ResSpec, satisfied by the model: "
+                "model_resSpec) is evaluated on the implementation's own tables after every label, and the incumbent is "
+                "probed behaviourally (who is asked for the work connection). One key everywhere: every table operation "
+                "of server/control.go is keyed by pxyMsg.ProxyName / closeMsg.ProxyName / pxy.GetName() (regenerated), and "
+                "the proxy object's name is the message's name unchanged (UnmarshalFromMsg, Complete(\"\"), NewProxy, "
+                "GetName: regenerated), so all of them are the name exactly as the client sent it; names with blanks, "
+                "case variants, empty, unicode and very long names are driven through the real Service and no name of a "
+                "torn down session may remain. Client half: svr.runID is written only after the LoginResp.Error check "
+                "(regenerated), so for every history of accepted / refused / failed logins every Login carries the run id "
+                "assigned last (witness: with the assignment before the check one refused re-login makes the client "
+                "forget its id); evaluated on the real client.Service.",
+        "note": "Trusted: Lean kernel; hand-written models; harness generators; gates; the translator's fact extraction. "
+                "For holdsOnBase the model's own tables are not proved to satisfy the executable predicate (ackOn and resOn "
+                "are: model_ackSpec, model_resSpec) - the predicate is evaluated on the implementation's tables and the "
+                "tables are also compared with the model's after every label. tcp ports / vhost routes behind a proxy are "
+                "C09/C10's; here a tcp incumbent is only probed (its port accepts and it is the one asked).",
     }
